@@ -158,6 +158,19 @@ impl Violation {
 /// stall monitor of C01/C20
 pub static PROGRESS: AtomicU64 = AtomicU64::new(0);
 
+/// number of threads currently waiting for a child process (compiler, cargo, a vdigest
+/// variant): the stall monitor does not count that time as "no case finishes"
+pub static EXTERNAL: std::sync::atomic::AtomicUsize = std::sync::atomic::AtomicUsize::new(0);
+
+/// `cmd.output()` with the stall monitor told that this thread waits for a child process
+pub fn run_external(cmd: &mut std::process::Command) -> std::io::Result<std::process::Output> {
+    EXTERNAL.fetch_add(1, Ordering::SeqCst);
+    let out = cmd.output();
+    EXTERNAL.fetch_sub(1, Ordering::SeqCst);
+    PROGRESS.fetch_add(1, Ordering::Relaxed);
+    out
+}
+
 pub type Check<'a> = dyn Fn(&mut Ctx, &mut Local, &CaseRec) -> Result<(), Violation> + Sync + 'a;
 
 // ---------------------------------------------------------------------------------
